@@ -50,6 +50,8 @@ class Module:
         except SyntaxError as exc:  # pragma: no cover
             raise AnalysisError(f'parse error in {relpath}: {exc}')
         self.tree = split_conditional_callees(fold_dynamic_names(unroll_literal_loops(inline_string_constants(self.tree))))
+        if os.environ.get('COPSTAT_INLINE_TEMPS', '1') != '0':
+            self.tree = inline_adjacent_temporaries(self.tree)
         for node in ast.walk(self.tree):
             for child in ast.iter_child_nodes(node):
                 child._parent = node
@@ -90,6 +92,105 @@ def _constant_tables(tree):
             for k in [k for k in tables if k.endswith('.' + n.attr)]:
                 del tables[k]
     return tables
+
+
+def inline_adjacent_temporaries(tree):
+    """Normalisation: `t = <expr>` immediately followed by `return t`, where `t` is a local bound only here and read only there,
+    becomes `return <expr>`.  Behaviour-preserving.  (Inlining a temporary into a larger return expression would be just as
+    sound, but the rules are written for the shapes in which draws and intermediate results have names.)"""
+    def eval_order(node):
+        """Sub-expressions in Python's evaluation order (for the node kinds that matter); yields nodes."""
+        if isinstance(node, ast.Call):
+            yield from eval_order(node.func)
+            for a in node.args:
+                yield from eval_order(a)
+            for k in node.keywords:
+                yield from eval_order(k.value)
+            yield node
+        elif isinstance(node, ast.Attribute):
+            yield from eval_order(node.value)
+            yield node
+        elif isinstance(node, ast.BinOp):
+            yield from eval_order(node.left)
+            yield from eval_order(node.right)
+            yield node
+        elif isinstance(node, ast.Compare):
+            yield from eval_order(node.left)
+            for c in node.comparators:
+                yield from eval_order(c)
+            yield node
+        elif isinstance(node, ast.Subscript):
+            yield from eval_order(node.value)
+            yield from eval_order(node.slice)
+            yield node
+        elif isinstance(node, (ast.Tuple, ast.List)):
+            for e in node.elts:
+                yield from eval_order(e)
+            yield node
+        elif isinstance(node, ast.UnaryOp):
+            yield from eval_order(node.operand)
+            yield node
+        elif isinstance(node, ast.Starred):
+            yield from eval_order(node.value)
+        else:
+            yield node
+
+    class Sub(ast.NodeTransformer):
+        def __init__(self, name, expr):
+            self.name, self.expr = name, expr
+
+        def visit_Name(self, n):
+            if n.id == self.name and isinstance(n.ctx, ast.Load):
+                return self.expr
+            return n
+
+    def process(fn):
+        stores, loads = {}, {}
+        for x in ast.walk(fn):
+            if isinstance(x, ast.Name):
+                d = stores if isinstance(x.ctx, (ast.Store, ast.Del)) else loads
+                d[x.id] = d.get(x.id, 0) + 1
+        params = {a.arg for a in fn.args.posonlyargs + fn.args.args + fn.args.kwonlyargs}
+
+        def block(stmts):
+            out = []
+            i = 0
+            while i < len(stmts):
+                s = stmts[i]
+                for f in ('body', 'orelse', 'finalbody'):
+                    v = getattr(s, f, None)
+                    if isinstance(v, list) and v and isinstance(v[0], ast.stmt) and not isinstance(s, (ast.FunctionDef, ast.AsyncFunctionDef, ast.ClassDef)):
+                        setattr(s, f, block(v))
+                if isinstance(s, ast.Try):
+                    for h in s.handlers:
+                        h.body = block(h.body)
+                nxt = stmts[i + 1] if i + 1 < len(stmts) else None
+                if isinstance(s, ast.Assign) and len(s.targets) == 1 and isinstance(s.targets[0], ast.Name) and isinstance(nxt, ast.Return) and isinstance(nxt.value, ast.Name):
+                    name = s.targets[0].id
+                    if name not in params and stores.get(name) == 1 and loads.get(name) == 1 and not isinstance(s.value, (ast.Lambda, ast.Yield, ast.YieldFrom, ast.Await, ast.NamedExpr)):
+                        pure_before = True
+                        found = False
+                        for sub in eval_order(nxt.value):
+                            if isinstance(sub, ast.Name) and sub.id == name:
+                                found = True
+                                break
+                            if isinstance(sub, (ast.Call, ast.BinOp, ast.Subscript, ast.Compare)):
+                                pure_before = False
+                                break
+                        if found and pure_before:
+                            nxt.value = Sub(name, s.value).visit(nxt.value)
+                            i += 1
+                            continue
+                out.append(s)
+                i += 1
+            return out
+        fn.body = block(fn.body)
+
+    for node in ast.walk(tree):
+        if isinstance(node, (ast.FunctionDef, ast.AsyncFunctionDef)):
+            process(node)
+    ast.fix_missing_locations(tree)
+    return tree
 
 
 def split_conditional_callees(tree):
